@@ -184,6 +184,24 @@ func genDCPkg(t *rapid.T, idx int) dcPkg {
 		}
 		p.Types = append(p.Types, ty)
 	}
+	// a tagged holder whose untagged dependencies are only reachable through it: the first one is a struct with two untagged
+	// dependencies of its own, the second one (and a third) must still get their methods
+	if !p.PkgTag && rapid.IntRange(0, 2).Draw(t, "depchain") == 0 {
+		b := len(p.Types)
+		nm := func(i int) string { return fmt.Sprintf("T%d", b+i) }
+		fl := func(kind, ref string) dcField {
+			fieldN++
+			return dcField{Name: fmt.Sprintf("F%d", fieldN), Kind: kind, Ref: ref}
+		}
+		p.Types = append(p.Types,
+			dcType{Name: nm(0), Kind: "scalar"},
+			dcType{Name: nm(1), Kind: "map"},
+			dcType{Name: nm(2), Kind: "struct", Fields: []dcField{fl("kind", nm(0)), fl("labels", nm(1)), fl("strings", "")}},
+			dcType{Name: nm(3), Kind: "struct", Fields: []dcField{fl("mapss", ""), fl("int", "")}},
+			dcType{Name: nm(4), Kind: "map"},
+			dcType{Name: nm(5), Kind: "struct", Tagged: true, Fields: []dcField{fl("struct", nm(2)), fl("struct", nm(3)), fl("labels", nm(4))}},
+		)
+	}
 	// without a package tag at least one struct must be tagged, otherwise nothing is generated
 	if !p.PkgTag {
 		any := false
